@@ -43,7 +43,7 @@ func keep(cat string, v any) {
 }
 
 func flushSamples(r *ev.Run) {
-	cats := []string{"token-leader", "tls-binary", "token-follower", "tls-inproc", "control", "unprotected"}
+	cats := []string{"token-leader", "token-path-leader", "tls-binary", "tls-inproc", "tls-resumption", "tls-resumption-binary", "control", "token-follower", "token-path-follower", "unprotected"}
 	for round := 0; round < 2; round++ {
 		for _, c := range cats {
 			if len(sampleBy[c]) > round {
@@ -311,7 +311,11 @@ func run(r *ev.Run) int {
 	r.Rule("groups = one server configuration each (real binary leader/follower with seed-chosen tokens; real binary with https + client-CA + allowed-cn / allowed-hostname; " +
 		"security.TLSInfo.ServerConfig() behind an in-process TLS listener for every option set). Token probes = every method of Maintenance and Tables (from the generated service descriptors) " +
 		"x credential variants derived from the configured token (none, empty, prefix, tail, extension, case, other scheme, spacing, other header, other service's token), in seed-shuffled order, " +
-		"each followed by a dump of table list + contents through the API. Certificate probes = credentials minted from construction parameters (issuer, validity, key ownership, CN, SANs). " +
+		"each followed by a dump of table list + contents through the API; every method is also sent under other spellings of the HTTP/2 :path (no leading slash, double slash, case, trailing slash, ...) through conn.Invoke/NewStream, " +
+		"and whatever spelling the server routes (measured per instance with unprotected calls) is judged like the canonical name. " +
+		"Certificate probes = credentials minted from construction parameters (issuer, validity, key ownership, CN, SANs, unrelated extra certificates sent along with the leaf). " +
+		"Session scenarios = endpoints serving the same server key pair but differing in client CA / allowed CN / allowed hostname (in-process ServerConfig() instances; the binary leader's API vs replication endpoint): " +
+		"a client right for A with a TLS session cache completes a round trip at A and then connects to B (TLS 1.2 and 1.3); B must judge it by its own rule. " +
 		"Non-trivial = a near-miss credential (differs from the right one in one construction parameter); distinct by flavour+method+metadata resp. option set+variant+names+client TLS version")
 	r.Assume(
 		"scheme of the authorization header is compared case-insensitively (documented by grpc-middleware AuthFromMD, rfc2617 1.2); the token itself byte-exactly",
@@ -319,6 +323,8 @@ func run(r *ev.Run) int {
 		"several authorization values in one call are not probed (which one counts is not stated)",
 		"for acceptance only the canonical right credential is binding; variants the reference predicate accepts (intermediate chain, extra SANs, wildcard, upper-case SAN) and names carried outside the matching SAN type (CN-only hostname, IP text in a dNSName) are recorded, not judged",
 		"option sets without a trusted CA are outside the statement: their outcomes are recorded, not judged",
+		"a :path spelling counts as routed by the server iff an unprotected unary call (Cluster/Status) or server stream (KV/IterateRange) spelled that way is answered OK; an unrouted spelling must not answer OK and must leave the state unchanged",
+		"where a client obtained a TLS session is irrelevant to the endpoint it presents it to: the oracle for the second endpoint is the same predicate over the certificate's construction parameters",
 		"the client's certificate is the leaf it proves possession of; certificates it merely sends along (not part of the leaf's chain) never lend their names to it",
 		"acceptance over TLS is decided by a round trip (server-side handshake result + ping/pong in-process, Cluster/Status RPC against the binary), never by the client-side handshake alone",
 		"the follower's Reset effect is observed through table revisions while replication is quiescent (oracle-admitted Reset probes are ordered last)",
@@ -408,6 +414,8 @@ func run(r *ev.Run) int {
 		r.FloorCount("near_miss_certificates", int64(r.Pick(330, 4500)))
 		r.FloorCount("tls_observed_accepted", int64(r.Pick(150, 1000)))
 		r.FloorCount("multi_certificate_client_messages", int64(r.Pick(90, 550)))
+		r.FloorCount("noncanonical_path_probes", int64(r.Pick(250, 3500)))
+		r.FloorCount("connections_with_session_from_other_endpoint", int64(r.Pick(90, 300)))
 		r.FloorDistinct("option_sets_inproc", 16)
 		r.FloorDistinct("option_sets_binary", int64(r.Pick(3, 12)))
 		r.FloorNontrivial(int64(r.Pick(750, 14000)))
